@@ -1,6 +1,7 @@
 package main
 
 import (
+	"io"
 	"bytes"
 	"encoding/binary"
 	"fmt"
@@ -11,6 +12,18 @@ import (
 	"github.com/foxboron/go-uefi/efi/signature"
 	"github.com/foxboron/go-uefi/efi/util"
 )
+
+// countingReader offers Read only and counts what was taken from it.
+type countingReader struct {
+	r io.Reader
+	n int
+}
+
+func (c *countingReader) Read(p []byte) (int, error) {
+	n, err := c.r.Read(p)
+	c.n += n
+	return n, err
+}
 
 func timeArg(t util.EFITime) string {
 	return fmt.Sprintf("%d,%d,%d,%d,%d,%d,%d,%d,%d,%d,%d", t.Year, t.Month, t.Day, t.Hour, t.Minute, t.Second,
@@ -32,32 +45,71 @@ func init() {
 		return []string{"ok", timeArg(v.Time), fmt.Sprint(ai.Header.Length), fmt.Sprint(ai.Header.Revision),
 			fmt.Sprint(uint16(ai.Header.CertType)), guidArg(ai.CertType), hx(ai.CertData), fmt.Sprint(r.Len()), hx(mb.Bytes())}
 	}
-	// same through (*EFIVariableAuthentication2).Unmarshal on a bytes.Buffer
-	implOps["auth2_unmarshal"] = func(a []string) []string {
-		buf := bytes.NewBuffer(unhx(a[0]))
-		var v signature.EFIVariableAuthentication2
-		if err := v.Unmarshal(buf); err != nil {
+	// through a reader that offers nothing but Read (a file, a pipe, a section reader): what
+	// the decoder took from it is counted by the reader itself
+	implOps["auth2_read_plain"] = func(a []string) []string {
+		in := unhx(a[0])
+		cr := &countingReader{r: bytes.NewReader(in)}
+		v, err := signature.ReadEFIVariableAuthencation2(cr)
+		if err != nil {
 			return []string{"err"}
 		}
 		var mb bytes.Buffer
 		v.Marshal(&mb)
 		ai := v.AuthInfo
 		return []string{"ok", timeArg(v.Time), fmt.Sprint(ai.Header.Length), fmt.Sprint(ai.Header.Revision),
-			fmt.Sprint(uint16(ai.Header.CertType)), guidArg(ai.CertType), hx(ai.CertData), fmt.Sprint(buf.Len()), hx(mb.Bytes())}
+			fmt.Sprint(uint16(ai.Header.CertType)), guidArg(ai.CertType), hx(ai.CertData), fmt.Sprint(len(in) - cr.n), hx(mb.Bytes())}
+	}
+	// same through (*EFIVariableAuthentication2).Unmarshal on a bytes.Buffer; the caller
+	// then reuses its buffer, which must not change the value it decoded
+	implOps["auth2_unmarshal"] = func(a []string) []string {
+		in := unhx(a[0])
+		buf := bytes.NewBuffer(in)
+		var v signature.EFIVariableAuthentication2
+		if err := v.Unmarshal(buf); err != nil {
+			return []string{"err"}
+		}
+		left := buf.Len()
+		for i := range in {
+			in[i] = 0xAA
+		}
+		buf.Reset()
+		buf.Write(bytes.Repeat([]byte{0x55}, len(in)))
+		var mb bytes.Buffer
+		v.Marshal(&mb)
+		ai := v.AuthInfo
+		return []string{"ok", timeArg(v.Time), fmt.Sprint(ai.Header.Length), fmt.Sprint(ai.Header.Revision),
+			fmt.Sprint(uint16(ai.Header.CertType)), guidArg(ai.CertType), hx(ai.CertData), fmt.Sprint(left), hx(mb.Bytes())}
 	}
 	implOps["wincert_read"] = func(a []string) []string {
-		r := bytes.NewReader(unhx(a[0]))
+		in := unhx(a[0])
+		var r interface {
+			io.Reader
+			Len() int
+		} = bytes.NewReader(in)
+		if len(a) > 1 && a[1] == "buffer" {
+			r = bytes.NewBuffer(in)
+		}
 		w, err := signature.ReadWinCertificate(r)
 		if err != nil {
 			return []string{"err"}
 		}
+		left := r.Len()
+		if b, ok := r.(*bytes.Buffer); ok {
+			// the caller reuses its buffer
+			for i := range in {
+				in[i] = 0xAA
+			}
+			b.Reset()
+			b.Write(bytes.Repeat([]byte{0x55}, len(in)))
+		}
 		var wb bytes.Buffer
 		signature.WriteWinCertificate(&wb, &w)
 		return []string{"ok", fmt.Sprint(w.Length), fmt.Sprint(w.Revision), fmt.Sprint(uint16(w.CertType)), hx(w.Certificate),
-			fmt.Sprint(r.Len()), hx(wb.Bytes())}
+			fmt.Sprint(left), hx(wb.Bytes())}
 	}
 	checkers["C10"] = checker{
-		rule: "descriptors built field by field (any timestamp incl. non-zero pad/nanosecond/timezone fields, certificate data 0..tier bound, any type GUID, any payload), the sbvarsign fixtures, and near-valid mutants (every truncation class, dwLength below/above the data, wrong revision, wrong certificate type), bare WIN_CERTIFICATEs of every certificate type and length residue mod 8 followed by a payload; each is decoded by the implementation in a sandboxed worker through ReadEFIVariableAuthencation2, Unmarshal and ReadWinCertificate, and R_C10 (extracted) compares fields, bytes left in the reader and the re-encoding; non-trivial = the model decodes the input successfully; distinct by input hash",
+		rule: "descriptors built field by field (any timestamp incl. non-zero pad/nanosecond/timezone fields, certificate data 0..tier bound, any type GUID, any payload), the sbvarsign fixtures, and near-valid mutants (every truncation class, dwLength below/above the data, wrong revision, wrong certificate type), bare WIN_CERTIFICATEs of every certificate type and length residue mod 8 followed by a payload; each is decoded by the implementation in a sandboxed worker through ReadEFIVariableAuthencation2 (over a byte reader and over a reader offering only Read, which counts what was taken), Unmarshal and ReadWinCertificate (over a reader or a bytes.Buffer which the caller overwrites and reuses before re-encoding the value), and R_C10 (extracted) compares fields, bytes left in the reader and the re-encoding; non-trivial = the model decodes the input successfully; distinct by input hash",
 		run:  runC10,
 	}
 }
@@ -99,7 +151,7 @@ func runC10(c *Ctx) {
 		c.Rep.Record(entry, class, nt, fmt.Sprintf("%d bytes", len(in)), args, v, info, map[string]string{"entry": entry, "input": class})
 	}
 	evalWin := func(class string, in []byte) {
-		o := c.Impl("wincert_read", hx(in))
+		o := c.Impl("wincert_read", hx(in), pick(rng, []string{"reader", "buffer"}))
 		fields := o.Fields
 		if o.Class != "ret" || len(fields) == 0 {
 			fields = []string{o.Class}
@@ -145,7 +197,7 @@ func runC10(c *Ctx) {
 		length := uint32(24 + dl)
 		valid := encAuth2(t, length, 0x0200, 0x0EF1, g, data)
 		in := append(append([]byte{}, valid...), payload...)
-		entry := "auth2_read"
+		entry := pick(rng, []string{"auth2_read", "auth2_read", "auth2_read_plain"})
 		if rng.Intn(3) == 0 {
 			entry = "auth2_unmarshal"
 		}
